@@ -120,6 +120,8 @@ def run_layer_a(rep: C.Report, n: int, oracle, rng, corpus_dir=None):
             coq_out.append(LA.c_obs(o))
     finally:
         shutil.rmtree(sb, ignore_errors=True)
+    rep.count("real_file_writer.cases", LA.sim.REAL_WRITER["used"])
+    rep.count("real_file_writer.forced_because_sim_writer_unusable", LA.sim.REAL_WRITER["forced"])
     header = LA.HEADER + LA.COQ_DEFS
     mism, errors = C.run_mismatch_shards(rep.prop, "layer_a", header, "m_file", "eq_obs",
                                          list(zip(coq_in, coq_out)), shard=250)
